@@ -293,3 +293,81 @@ func init() {
 		s.obs("conhttp differing=%d answered=%d", bad, ok200)
 	})
 }
+
+func init() {
+	// waitopen NAME now : a second handle is opened (default options) while a first one holds the
+	// file, changes slots in the first and in a later page, Syncs and closes.  What the second
+	// handle then fetches must be what a fresh Open fetches: the synced state, from every page.
+	register("waitopen", func(s *sess, tk []string) {
+		f := s.file(tk[1])
+		s.closeAll()
+		now := wt.Timestamp(atoi(tk[2]))
+		a, err := wt.Open(f.path)
+		if err != nil {
+			s.obs("waitopen openerr")
+			return
+		}
+		n := a.ArchiveInfoList()[0].NumberOfPoints()
+		step := a.ArchiveInfoList()[0].SecondsPerPoint()
+		type res struct {
+			vals []wt.Value
+			err  error
+		}
+		done := make(chan res, 1)
+		go func() {
+			b, err := wt.Open(f.path)
+			if err != nil {
+				done <- res{nil, err}
+				return
+			}
+			defer b.Close()
+			ts, err := b.FetchFromArchive(0, now.Add(-wt.Duration(n)*step), now, now)
+			if err != nil || ts == nil {
+				done <- res{nil, fmt.Errorf("fetch failed")}
+				return
+			}
+			done <- res{ts.Values(), nil}
+		}()
+		time.Sleep(150 * time.Millisecond)
+		// the holder rewrites every slot of archive 0 (all pages) and syncs
+		ts, _ := a.FetchFromArchive(0, now.Add(-wt.Duration(n)*step), now, now)
+		var pts []wt.Point
+		if ts != nil {
+			for _, p := range ts.Points() {
+				v := p.Value
+				if v.IsNaN() {
+					v = 0
+				}
+				pts = append(pts, wt.Point{Time: p.Time, Value: v + 1000})
+			}
+		}
+		a.UpdatePointsForArchive(pts, 0, now)
+		a.Sync()
+		a.Close()
+		var got res
+		select {
+		case got = <-done:
+		case <-time.After(5 * time.Second):
+			s.obs("waitopen second-open-never-returned")
+			return
+		}
+		c, err := wt.Open(f.path)
+		if err != nil || got.err != nil {
+			s.obs("waitopen openerr")
+			return
+		}
+		defer c.Close()
+		want, _ := c.FetchFromArchive(0, now.Add(-wt.Duration(n)*step), now, now)
+		differing := 0
+		if want == nil || len(want.Values()) != len(got.vals) {
+			differing = -1
+		} else {
+			for i, v := range want.Values() {
+				if !v.Equal(got.vals[i]) {
+					differing++
+				}
+			}
+		}
+		s.obs("waitopen differing=%d", differing)
+	})
+}
